@@ -41,8 +41,10 @@ def random_tls_flow(rng, idx=0, ep=None, nmax=12, big=False, segkinds=("mss", "r
     return fl
 
 
-def random_quic_flow(rng, idx=0, ep=None, napp=None, sport=443, v6=None, avoid=(), ccid_len=None):
-    s = quicsynth.random_qspec(rng, napp=napp, avoid=avoid)
+def random_quic_flow(rng, idx=0, ep=None, napp=None, sport=443, v6=None, avoid=(), ccid_len=None, path_swaps=None, bulk=None):
+    s = quicsynth.random_qspec(rng, napp=napp, avoid=avoid, bulk=bulk)
+    if path_swaps is not None:
+        s.path_swaps = path_swaps
     if ccid_len is not None:
         s.c_scid_len = ccid_len
         if s.client_new_cid_at >= 0 and not ccid_len:
